@@ -197,7 +197,37 @@ type cntLoader struct {
 	mu     sync.Mutex
 	n      int
 	failAt int
+	mode   int
 	yield  int
+}
+
+// failingTemplate hands out a reader that delivers a part of the source and
+// then fails.
+type failingTemplate struct {
+	stick.Template
+	keep int // bytes delivered before the error; < 0: half of the source
+}
+
+type failingReader struct {
+	data []byte
+}
+
+func (r *failingReader) Read(p []byte) (int, error) {
+	if len(r.data) == 0 {
+		return 0, errInjectedLoad
+	}
+	n := copy(p, r.data)
+	r.data = r.data[n:]
+	return n, nil
+}
+
+func (t failingTemplate) Contents() io.Reader {
+	src, _ := io.ReadAll(t.Template.Contents())
+	keep := t.keep
+	if keep < 0 {
+		keep = len(src) / 2
+	}
+	return &failingReader{data: src[:keep]}
 }
 
 var errInjectedLoad = errors.New("verif: injected loader failure")
@@ -211,6 +241,14 @@ func (l *cntLoader) Load(name string) (stick.Template, error) {
 		runtime.Gosched()
 	}
 	if l.failAt > 0 && n == l.failAt {
+		switch l.mode {
+		case 1, 2:
+			t, err := l.inner.Load(name)
+			if err != nil {
+				return nil, err
+			}
+			return failingTemplate{Template: t, keep: map[int]int{1: -1, 2: 0}[l.mode]}, nil
+		}
 		return nil, errInjectedLoad
 	}
 	return l.inner.Load(name)
@@ -284,7 +322,7 @@ func workDir() string {
 	return d
 }
 
-func buildEnv(kind, loader string, tpls map[string]string, lfail, yield int) (*built, error) {
+func buildEnv(kind, loader string, tpls map[string]string, lfail, yield int, lmode ...int) (*built, error) {
 	b := &built{rec: &recorder{yield: yield}}
 	var inner stick.Loader
 	switch loader {
@@ -315,6 +353,9 @@ func buildEnv(kind, loader string, tpls map[string]string, lfail, yield int) (*b
 		return nil, fmt.Errorf("unknown loader %q", loader)
 	}
 	b.loader = &cntLoader{inner: inner, failAt: lfail, yield: yield}
+	if len(lmode) > 0 {
+		b.loader.mode = lmode[0]
+	}
 	switch kind {
 	case "", "core":
 		b.env = stick.New(b.loader)
